@@ -305,6 +305,36 @@ def replay(text, base_opts, call="plain"):
         rc.Compiler = real_compiler
 
 
+def sequence_obligations():
+    """compile_code called several times in one process without an options object (None / nothing):
+    every call starts from the default options; directives of an earlier source do not persist."""
+    from stationeers_pytrapic import compiler as rc
+    from stationeers_pytrapic.compile_pass import CompileOptions
+
+    defaults = {n: getattr(CompileOptions(), n) for n in OPTION_NAMES}
+    seqs = [
+        [("# pytrapic: compact, remove-labels\n# pytrapic: no-append-version, no-inline-functions\nx = 1\n", None), ("x = 1\n", None), ("# pytrapic: generated-comments\nx = 1\n", None)],
+        [("# pytrapic: no-inline-functions\nx = 1\n", "omit"), ("x = 2\n", "omit"), ("x = 3\n", None)],
+        [("# pytrapic: compact\nx = 1\n", {}), ("x = 2\n", {}), ("x = 2\n", None)],
+    ]
+    rows, n = [], 0
+    real_compiler = rc.Compiler
+    rc.Compiler = _Stub
+    try:
+        for si, seq in enumerate(seqs):
+            for ci, (text, opt) in enumerate(seq):
+                r = rc.compile_code(text) if opt == "omit" else rc.compile_code(text, opt if opt is None else dict(opt))
+                got = {k: getattr(r["__options__"], k) for k in OPTION_NAMES}
+                want = spec(text, defaults)
+                n += 1
+                if got != want:
+                    diff = {k: (got[k], want[k]) for k in OPTION_NAMES if got[k] != want[k]}
+                    rows.append(dict(kind="options_persist_between_calls", text=text, detail=f"sequence {si}, call {ci} (options {'omitted' if opt == 'omit' else opt!r}): (got, want) {diff}"))
+    finally:
+        rc.Compiler = real_compiler
+    return n, rows
+
+
 def run(tier: str) -> int:
     rep = harness.Report(PROP, tier, "exploration")
     rep.assumptions = ASSUMPTIONS
@@ -339,7 +369,12 @@ def run(tier: str) -> int:
             seen.add(key)
             path = e1.save_replay(PROP, dict(property=PROP, kind="directive", name=spec_["name"], base=BASES[spec_["base"]], call=spec_.get("call", "plain"), problem=pr))
             rep.violation(f"{spec_['name']}: {pr['kind']} on {_short(pr['text'])}: {pr.get('replayed')}", path)
+    n_seq, seq_rows = sequence_obligations()
+    for row in seq_rows[:3]:
+        path = e1.save_replay(PROP, dict(property=PROP, kind="table_row", row=row))
+        rep.violation(f"{row['kind']}: {row['detail']}", path)
     rep.coverage = dict(
+        call_sequences_checked=n_seq,
         evaluations=strings,
         distinct_nontrivial=nontrivial,
         rule="templates (directive line with symbolic blanks/junk, '-'/'_' spellings, last-wins, three / five directive lines naming the same options with symbolic polarity (all on/off sequences, repeated identical lines), first / last / 71st line, after-code and in-string placements with line-boundary look-alikes, separators, adversarial attribute names, CR/LF; options passed as object or dict; project with a library module whose own directives must be ignored) x caller option vectors; every feasible path of the real scanner is explored, every string of every path class is compared with the specification and mismatches are replayed on the real compile_code; non-trivial = template with >= 2 feasible paths",
